@@ -1,0 +1,66 @@
+//go:build verif
+
+// Add-only exports for the verification harness under /verif.  Compiled only with
+// `-tags verif`; without the tag this file is not part of the package.
+
+package trzsz
+
+import (
+	"io"
+)
+
+// ---- escape.go / pipeline.go escape reader and writer ----
+
+type VerifEscapeTable = escapeTable
+
+func VerifParseEscapeTable(js []byte) (*VerifEscapeTable, error) {
+	var t escapeTable
+	if err := t.UnmarshalJSON(js); err != nil {
+		return nil, err
+	}
+	return &t, nil
+}
+
+func VerifEscapeCodes(t *VerifEscapeTable) (esc [256]int, unesc [256]int) {
+	for i := 0; i < 256; i++ {
+		esc[i], unesc[i] = -1, -1
+		if t.escapeCodes[i] != nil {
+			esc[i] = int(*t.escapeCodes[i])
+		}
+		if t.unescapeCodes[i] != nil {
+			unesc[i] = int(*t.unescapeCodes[i])
+		}
+	}
+	return
+}
+
+func VerifGetEscapeChars(escapeAll bool) [][]string {
+	var out [][]string
+	for _, p := range getEscapeChars(escapeAll) {
+		var q []string
+		for _, s := range p {
+			q = append(q, string(s))
+		}
+		out = append(out, q)
+	}
+	return out
+}
+
+func VerifEscapeData(data []byte, t *VerifEscapeTable) []byte { return escapeData(data, t) }
+
+func VerifUnescapeData(data []byte, t *VerifEscapeTable, dst []byte) ([]byte, []byte, error) {
+	return unescapeData(data, t, dst)
+}
+
+type VerifReadCloser interface {
+	io.Reader
+	Close()
+}
+
+func VerifNewEscapeReader(t *VerifEscapeTable, r io.Reader) VerifReadCloser {
+	return newEscapeReader(t, r)
+}
+
+func VerifNewEscapeWriter(t *VerifEscapeTable, w io.WriteCloser) io.WriteCloser {
+	return newEscapeWriter(t, w)
+}
